@@ -213,5 +213,20 @@ def run(tier: str, rep: Report):
         src = "graph" if evid.startswith("g:") else "overrides" if evid.startswith("o:") else "lineprog" if evid.startswith("l:") else ("normalized" if evid.endswith(":norm") else "decoded")
         return f"{PID}/{'+'.join(sorted(set(c.split('.', 1)[1] for c in clauses)))}/{src}/ver{df.ver_of(evid) if evid[:2] not in ('g:', 'o:', 'l:') else evid.split(':')[-1]}"
 
+    def corrupt(e):
+        if e.get("kind") != "encode" or e["out"]["exc"] or not e.get("relax") or not e["relax"][0][0]:
+            return None
+        e["relax"][0][0][0] += 2          # one logged relaxation pass differs from the specification's
+        return e
+
+    df.negative_control(rep, files, "Trace_Encode", corrupt, ("M.relax",))
+
+    def corrupt2(e):
+        if e.get("kind") != "encode" or e["out"]["exc"] or not e["d"]["instrs"] or e["d"]["instrs"][0][5] < 0:
+            return None
+        e["d"]["instrs"][0][5] += 1        # the data claims another line than the code carries
+        return e
+
+    df.negative_control(rep, files, "Trace_Encode", corrupt2, ("P02.lines",))
     df.classify(rep, fails, PREFIX, PID, keyfn)
     rep.cov["model_agreement"]["note"] = "M.* = real encoder vs Encode.tla (units, tables, line table, header, every relaxation pass)"
